@@ -63,6 +63,12 @@ def obligations(ctx):
         for (rsz, asz) in ((2, 1), (1, 2), (2, 2), (3, 2)):
             for avx in (0, 1):
                 obs.append(prod_ob(t, 1, nn, avx, rsz, asz, asl=nn + 1, tmpa=(rsz + asz + avx) % 2 == 0))
+    # "output rows beyond the input size are exactly zero" (bit-precise, outputs prefilled with arbitrary data), empty input included
+    for nn in (4, 16):
+        for avx in (0, 1):
+            for api in (5, 1, 2, 3):  # svp_apply_dft, vec_znx_dft, vec_znx_idft, vec_znx_idft_tmp_a
+                for (rsz, asz) in ((2, 0), (3, 1), (1, 0)):
+                    obs.append(ag.api_ob(t, api, nn, 0, avx, rsz, asz, asl=nn + 1 if api in (1, 5) else nn, tag="zero-rows/"))
     return obs
 
 
